@@ -1146,6 +1146,12 @@ fn emit_case_here(out: &mut impl Write, cap: Option<usize>, handler: bool, ops: 
     // (capacity first / handler first)
     let hmode: u8 = if !handler { if (*count / 2) % 2 == 0 { 0 } else { 3 } } else { 1 + ((*count / 2) % 2) as u8 };
     let (all, obs) = run_queue(cap, hmode, ops);
+    if cap == Some(0) {
+        // rendezvous queue: its own model (Cadence.Model.Queue0)
+        writeln!(out, "queue0 {} {} => {}", hmode, if all.is_empty() { "-".to_string() } else { all.join(",") }, obs).unwrap();
+        *count += 1;
+        return;
+    }
     writeln!(
         out,
         "queue {} {} {} => {}",
@@ -1219,7 +1225,7 @@ fn exhaustive(out: &mut impl Write, caps: &[Option<usize>], depth: usize, count:
 
 fn random_cases(out: &mut impl Write, rng: &mut Rng, n: usize, maxops: usize, count: &mut u64) {
     for _ in 0..n {
-        let cap = if rng.chance(30) { None } else { Some(rng.range(1, 8) as usize) };
+        let cap = if rng.chance(30) { None } else if rng.chance(12) { Some(0) } else { Some(rng.range(1, 8) as usize) };
         let handler = rng.chance(50);
         let nops = rng.range(1, maxops as u64) as usize;
         let mut live = vec![true];
